@@ -1699,6 +1699,14 @@ class StepTr(Tr):
                 raise Unsupported("operator| on %s, %s (callee %s)" % (qt(args[0]), qt(args[1]), sig))
             self.prims.add("arrConcat")
             return "(arrConcat %s %s)" % (self.e(args[0]), self.e(args[1]))
+        if op == "*" and len(args) == 2 and canon_type(strip_type(qt(args[0]))) in ARRAY_CX_T and canon_type(strip_type(qt(args[1]))) in ARRAY_CX_T:
+            # `arr_cmplx * arr_cmplx`: base_array<T>::operator*(const base_array<T2>&) = copy, then `operator*=`: size check (throws),
+            # `_vec[i] *= rhs[i]` (PINNED in the unit that uses it; the throwing case is `arrMulCCThrows`)
+            sig = canon_type(qt(unwrap(n["inner"][0])))
+            if sig != "base_array<cmplx_t> (const base_array<cmplx_t> &) const":
+                raise Unsupported("operator* on two arrays (callee %s)" % sig)
+            self.prims.add("arrMulCC")
+            return "(arrMulCC %s %s)" % (self.e(args[0]), self.e(args[1]))
         if op == "/" and len(args) == 2 and canon_type(strip_type(qt(args[0]))) in ARRAY_REAL_T | ARRAY_CX_T:
             # `array / scalar`: base_array<T>::operator/(const T2&) (PINNED in unit StepsArray: copy, then `_vec[i] /= rhs`)
             ta, kb = canon_type(strip_type(qt(args[0]))), kind_of_type(qt(args[1]))
@@ -2358,6 +2366,25 @@ class StepTr(Tr):
                     self.local_const[d["name"]] = True
                     self.declare(v, lt)
                     continue
+                if lean_type_of(qt(d)) in ("Array α", "Array (Cx α)") and (self.frames or self.in_loop) and "const" in qt(d) and \
+                        getattr(self, "block_arrays", False):
+                    # `const auto ry = <array expression>;` inside a branch / loop body: a name for a value, local to the block
+                    lt = lean_type_of(qt(d))
+                    v = self.var(d["name"])
+                    if v in self.bound or d["name"] in self.local_arrays:
+                        raise Unsupported("array local `%s` shadows a name in scope" % d["name"])
+                    i0 = unwrap(init)
+                    while (i0.get("kind") == "ImplicitCastExpr" and i0.get("castKind") == "NoOp") or \
+                            (i0.get("kind") == "CXXFunctionalCastExpr" and i0.get("castKind") == "ConstructorConversion"):
+                        i0 = unwrap(i0["inner"][0])
+                    if not (lean_type_of(qt(i0)) == lt and i0.get("kind") in ("CXXOperatorCallExpr", "CallExpr", "CXXConstructExpr")):
+                        raise Unsupported("initialiser of the block-local array `%s`: %s" % (d["name"], i0.get("kind")))
+                    val = self.e(i0)
+                    text += self.flush() + "let %s : %s := %s\n" % (v, lt, val)
+                    self.local_arrays[d["name"]] = (v, lt)
+                    self.local_const[d["name"]] = True
+                    self.declare(v, lt)
+                    continue
                 if lean_type_of(qt(d)) in ("Array α", "Array (Cx α)"):
                     # an array local: `arr_real r(n);` (n zero elements) or `auto x = <array expression>;`
                     if self.frames or self.in_loop:
@@ -2438,8 +2465,10 @@ class StepTr(Tr):
             return self.inner_for(s) + cont()
         if k == "WhileStmt":
             return self.bounded_walk(s) + cont()
+        if k == "CXXForRangeStmt":
+            return self.range_for(s) + cont()
         if k in ("BreakStmt", "ContinueStmt", "GotoStmt", "CXXThrowExpr", "DoStmt", "SwitchStmt",
-                 "CXXForRangeStmt", "CXXTryStmt"):
+                 "CXXTryStmt"):
             raise Unsupported("statement kind %s in a step body" % k)
         if k == "IfStmt":
             parts = s["inner"]
@@ -2469,6 +2498,7 @@ class StepTr(Tr):
                 txt = self.stmts([br], JOIN) if br is not None else JOIN
                 fr = self.frames.pop()
                 self.bound = set(bound0)
+                self.prune_locals()
                 res.append((txt, fr["assigned"]))
             vs = []
             for _, a in res:
@@ -2624,6 +2654,50 @@ class StepTr(Tr):
             self.declare(ev, "Int")
         if extra_inc:
             body = {"kind": "CompoundStmt", "inner": (list(body.get("inner", [])) if body.get("kind") == "CompoundStmt" else [body]) + extra_inc}
+        return self._fold(cname, hi, hi_members, pre, body, "", "for (int %s = 0; %s < %s; %s++)" % (cname, cname, hi, cname))
+
+    def range_for(self, s):
+        """`for (const auto& v : A) BODY` over a read-only array A in scope: the indexed loop `for (k = 0; k < A.size(); k++) { v = A[k]; BODY }`
+        (base_array<T>::begin() / end() are those of `_vec`: PINNED in unit StepsArray; the body cannot change A)"""
+        parts = s["inner"]
+        if len(parts) != 8 or (parts[0] and parts[0].get("kind")):
+            raise Unsupported("range-based for with an init-statement")
+        rng, lv, body = parts[1], parts[6], parts[7]
+        rd = rng["inner"][0] if rng.get("kind") == "DeclStmt" and len(rng.get("inner", [])) == 1 else {}
+        a0 = unwrap(rd["inner"][0]) if rd.get("inner") else {}
+        while a0.get("kind") == "ImplicitCastExpr" and a0.get("castKind") == "NoOp":
+            a0 = unwrap(a0["inner"][0])
+        an = a0.get("referencedDecl", {}).get("name") if a0.get("kind") == "DeclRefExpr" else None
+        if an not in self.arrays or self.arrays[an][0] not in self.bound or a0["referencedDecl"].get("kind") != "ParmVarDecl":
+            raise Unsupported("range-based for over something other than a read-only array parameter")
+        aln, alt = self.arrays[an]
+        for nm_, meth in ((2, "begin"), (3, "end")):
+            d_ = parts[nm_]["inner"][0] if parts[nm_].get("kind") == "DeclStmt" else {}
+            c_ = unwrap(d_["inner"][0]) if d_.get("inner") else {}
+            if not (c_.get("kind") == "CXXMemberCallExpr" and unwrap(c_["inner"][0]).get("name") == meth and len(c_["inner"]) == 1):
+                raise Unsupported("range-based for: the iterators are not `%s()` of the array" % meth)
+        ld = lv["inner"][0] if lv.get("kind") == "DeclStmt" and len(lv.get("inner", [])) == 1 else {}
+        elt = {"Array α": "α", "Array (Cx α)": "Cx α"}[alt]
+        if lean_type_of(qt(ld)) != elt or "const" not in qt(ld):
+            raise Unsupported("range-based for: loop variable `%s` : %s (expected a const element)" % (ld.get("name"), qt(ld)))
+        deref = unwrap(ld["inner"][0]) if ld.get("inner") else {}
+        if not (deref.get("kind") == "CXXOperatorCallExpr" and self.callee_name(deref) == "operator*" and len(deref["inner"]) == 2):
+            raise Unsupported("range-based for: the loop variable is not `*it`")
+        if has_exit(body):
+            raise Unsupported("break / continue / return inside a range-based for")
+        vv = self.var(ld["name"])
+        cname = ld["name"] + "_idx"
+        if vv in self.bound or self.var(cname) in self.bound:
+            raise Unsupported("range-based for: loop variable `%s` shadows a name in scope" % ld["name"])
+        self.prims.add("arrSize")
+        hi = "(arrSize %s)" % aln
+        pre = self.flush()
+        self.types[vv] = elt
+        bind = "let %s : %s := (ptrGet %s %s %s)\n" % (vv, elt, self.arr_default(alt), aln, self.var(cname))
+        self.prims.add("ptrGet")
+        return self._fold(cname, hi, set(), pre, body, bind, "for (const auto& %s : %s)" % (ld["name"], an), extra_bound=(vv,))
+
+    def _fold(self, cname, hi, hi_members, pre, body, bind, what, extra_bound=()):
         saved_np, self.nonpreserving = self.nonpreserving, set()
         saved_writes, self.writes = self.writes, set()
         v = self.var(cname)
@@ -2634,12 +2708,16 @@ class StepTr(Tr):
         self.bound.add(v)
         self.types[v] = "Int"
         self.loop_vars.add(v)
+        for eb in extra_bound:
+            self.bound.add(eb)
+            self.frames[-1]["decl"].add(eb)
         self.inner_depth += 1
         txt = self.stmts([body], JOIN)
         self.inner_depth -= 1
         self.loop_vars.discard(v)
         fr = self.frames.pop()
         self.bound = set(bound0)
+        self.prune_locals()
         body_writes, self.writes = self.writes, saved_writes | self.writes
         vs = fr["assigned"]
         if not vs:
@@ -2662,7 +2740,7 @@ class StepTr(Tr):
         while nat in self.bound:
             k += 1
             nat = "%s_n%d" % (v, k)
-        head = "let %s : Int := Int.ofNat %s\n" % (v, nat)
+        head = "let %s : Int := Int.ofNat %s\n" % (v, nat) + bind
         # the body becomes a definition of its own: parameters = the names in scope it mentions (not assigned), then the
         # accumulator (the assigned variables), then the counter
         tup = vs[0] if len(vs) == 1 else "(%s)" % ", ".join(vs)
@@ -2676,7 +2754,14 @@ class StepTr(Tr):
         # keeps its position), `eps` first
         cand = [nm for nm in sorted(set(bound0) | {"eps"}) if nm not in vs and mentions(nm, body_txt)]
         first = lambda nm: re.search(r"(?<![A-Za-z0-9_'.])%s(?![A-Za-z0-9_'])" % re.escape(nm), body_txt).start()
-        free = sorted(cand, key=lambda nm: (nm != "eps", first(nm)))
+        if getattr(self, "loop_param_order", "occurrence") == "decl":
+            # (constructors, free functions) order of DECLARATION in the translated function — independent of the order in which
+            # the body mentions the names, so commuting two operands does not change the signature; names without a recorded
+            # declaration (counters of enclosing loops): by first occurrence, last
+            rank = lambda nm: self.decl_order.index(nm) if nm in self.decl_order else len(self.decl_order) + first(nm)
+            free = sorted(cand, key=lambda nm: (nm != "eps", rank(nm)))
+        else:
+            free = sorted(cand, key=lambda nm: (nm != "eps", first(nm)))
         for nm in free:
             if nm not in self.types:
                 raise Unsupported("inner loop body uses `%s`, whose Lean type is unknown" % nm)
@@ -2688,9 +2773,9 @@ class StepTr(Tr):
             accp = "acc"
             unpack_in = "".join("let %s := acc%s\n" % (w, ".2" * i + (".1" if i < len(vs) - 1 else "")) for i, w in enumerate(vs))
         self.aux_defs.append(
-            "/-- one iteration of the inner loop no. %d (`for (int %s = 0; %s < %s; %s++)`) on %s -/\n"
+            "/-- one iteration of the inner loop no. %d (`%s`) on %s -/\n"
             "def %s %s (%s : %s) (%s : Nat) : %s :=\n%s\n" % (
-                self.n_loops, cname, cname, hi, cname, ", ".join("`%s`" % w for w in vs),
+                self.n_loops, what, ", ".join("`%s`" % w for w in vs),
                 lname, " ".join("(%s : %s)" % (nm, self.types[nm]) for nm in free), accp, acc_t, nat, acc_t,
                 indent(unpack_in + body_txt)))
         call = "(%s %s)" % (lname, " ".join(free)) if free else lname
@@ -2922,6 +3007,12 @@ class StepTr(Tr):
                 "".join(nm + " " for nm in free), step, v))
         self.note_assigned(v)
         return pre + "let %s := %s %s(Int.toNat %s) %s\n" % (v, lname, "".join(nm + " " for nm in free), fuel, v)
+
+    def prune_locals(self):
+        """array locals declared inside a block that has been left are out of scope"""
+        for nm in [nm for nm, (v, _) in self.local_arrays.items() if v not in self.bound]:
+            del self.local_arrays[nm]
+            self.local_const.pop(nm, None)
 
     def flush_before(self, a):
         # hoisted lets of the right-hand side come first, then the assignment itself (which may carry its own
@@ -4665,6 +4756,7 @@ class CtorTr(StepTr):
         super().__init__(members=members, single=True, user_calls=user_calls or steps_user_calls(), effect=True)
         self.bound = set()
         self.fallible = True
+        self.loop_param_order = "decl"
         self.rec = rec
         self.obj_pred = obj_pred       # None: the object is `*this`; else a predicate on AST nodes (`*_d` of a pimpl class)
         self.subctors = subctors or {}  # canonical C++ type of a sub-object -> dict(lean=…, sig=…, assign=[signatures of operator=])
@@ -4693,7 +4785,24 @@ class CtorTr(StepTr):
             raise Unsupported("floating literal %s is not a short decimal" % v)
         return "((Fn.ofInt (%d : Int)) / (Fn.ofInt (%d : Int)))" % (fr.numerator, fr.denominator)
 
+    def e_BinaryOperator(self, n):
+        if n.get("opcode") == "<<":
+            l, r = n["inner"]
+            lu = unwrap(l)
+            if lu.get("kind") == "IntegerLiteral" and lu.get("value") == "1" and canon_type(strip_type(qt(n))) in ("long", "long long") and \
+                    canon_type(strip_type(qt(r))) == "int":
+                # `1L << e`: 2^e for 0 <= e < 63 (a negative or too large count is undefined)
+                self.prims.add("shl1")
+                return "(shl1 %s)" % self.e(r)
+            raise Unsupported("shift %s << %s" % (qt(l), qt(r)))
+        return super().e_BinaryOperator(n)
+
     def cast(self, n):
+        if n.get("castKind") == "IntegralCast" and canon_type(strip_type(qt(n))) == "int" and \
+                canon_type(strip_type(qt(n["inner"][0]))) in ("long", "long long") and getattr(self, "allow_long_to_int", False):
+            # a `long` value stored into an `int`: value-preserving below 2^31 — 32-bit overflow is NOT modelled (as for every `int`)
+            self.narrowed = True
+            return self.e(n["inner"][0])
         if n.get("castKind") == "FloatingToIntegral":
             # `int(v)` / `(int) v` / implicit: truncation towards zero (undefined when the value does not fit): the function
             # `truncToInt` is a parameter of the generated constructor
@@ -5443,6 +5552,7 @@ def gen_free_fn(f, lname, doc, calls=None, fallible=False, fallible_fns=None, re
     tr = StepTr(members={}, single=True, user_calls=calls or steps_user_calls(), effect=False)
     tr.bound = set()
     tr.fallible = fallible
+    tr.loop_param_order = "decl"
     tr.fallible_fns = dict(fallible_fns or {})
     args = []
     for p_ in params_of(f):
@@ -5599,6 +5709,206 @@ def gen_ctor_resample():
 
 
 # ------------------------------------------------------------------------------------------
+# unit: StepsFftFilter  (lib/fir.cpp: the two constructors of FftFilter, FftFilter::process (complex and real);
+#                        lib/math.cpp: conj / real of an arr_cmplx translated, complex(arr_real) pinned)
+
+FFTFILTER_TABLE = {"_x": "arr_cmplx", "_h": "arr_cmplx", "_olap": "arr_cmplx", "_nx": "int", "_m": "int", "_n": "int"}
+
+FFTFILTER_PINS = {
+    # template<class T2, class R = ResultType<T, T2>> base_array<R> operator*(const base_array<T2>& rhs) const { auto temp = array_cast<R>(*this); temp *= rhs; return temp; }
+    "operator*(array)": ['0000000000000000'],
+    # … base_array<R>& operator*=(const base_array<T2>& rhs) { DSPLIB_ASSERT(this->size() == rhs.size(), …); for (i < _vec.size()) _vec[i] *= rhs[i]; return *this; }
+    "operator*=(array)": ['0000000000000000'],
+    # arr_cmplx complex(const arr_real& re) noexcept { return array_cast<cmplx_t>(re); }     (lib/math.cpp; array_cast is pinned in unit StepsArray)
+    "complex(arr_real)": ['0000000000000000'],
+}
+
+
+def gen_steps_fftfilter():
+    math_tu = '#include "math.cpp"\n'
+    prefetch([(FIR_TU, "FftFilter"), (FIR_TU, "FftFilter::FftFilter"), (FIR_TU, "FftFilter::process"), (ARR_TU, "base_array::operator*"),
+              (math_tu, "dsplib::complex"), (math_tu, "dsplib::conj"), (math_tu, "dsplib::real")])
+    has_body = lambda d: any(c.get("kind") == "CompoundStmt" for c in d.get("inner", []))
+    out = [HEADER % "lib/fir.cpp (`FftFilter::FftFilter(const arr_cmplx&)`, `FftFilter::FftFilter(const arr_real&)`, `FftFilter::process` complex and real), "
+                    "include/dsplib/fir.h (members), lib/math.cpp (`conj(const arr_cmplx&)`, `real(const arr_cmplx&)` translated; `complex(const arr_real&)` — PINNED), "
+                    "include/dsplib/array.h (`operator*(array)` — PINNED)",
+           "import DspVerif.Gen.StepsArray\n" + STEPS_HEAD[0], STEPS_HEAD[1]]
+    # --- pinned array operations
+    arr_tmpl = lambda nm: (lambda d: d.get("kind") == "FunctionTemplateDecl" and d.get("name") == nm and
+                           [canon_type(qt(p_)) for f in d["inner"] if f.get("kind") == "CXXMethodDecl" for p_ in params_of(f)][:1] == ["const base_array<T2> &"])
+    pinned(ARR_TU, "base_array::operator*", arr_tmpl("operator*"), "operator*(array)", FFTFILTER_PINS, "base_array<T>::operator*(const base_array<T2>&)")
+    pinned(ARR_TU, "base_array::operator*", arr_tmpl("operator*="), "operator*=(array)", FFTFILTER_PINS, "base_array<T>::operator*=(const base_array<T2>&)")
+    pinned(math_tu, "dsplib::complex", lambda d: d.get("kind") == "FunctionDecl" and d.get("name") == "complex" and has_body(d) and
+           canon_type(qt(d)) == "arr_cmplx (const arr_real &) noexcept", "complex(arr_real)", FFTFILTER_PINS, "complex(const arr_real&) of lib/math.cpp")
+    out.append("/-- `arr_cmplx * arr_cmplx`: `base_array<T>::operator*(const base_array<T2>&)` = `array_cast` copy, then `operator*=` (PINNED):\n"
+               "`DSPLIB_ASSERT(this->size() == rhs.size())`, then `_vec[i] *= rhs[i]` (`cmplx_t::operator*=`, regenerated: `Cx.mulAssign`).\n"
+               "The call THROWS exactly when this holds -/\n"
+               "def arrMulCCThrows (a b : Array (Cx α)) : Prop := a.size ≠ b.size\n")
+    out.append("/-- … and the value returned when it does not throw (see `arrMulCCThrows`) -/\n"
+               "def arrMulCC (a b : Array (Cx α)) : Array (Cx α) :=\n"
+               "  Array.ofFn (n := a.size) fun i => Cx.mulAssign a[i] (b.getD i.val zeroC)\n")
+    out.append("/-- `arr_cmplx complex(const arr_real& re)` of lib/math.cpp (PINNED): `array_cast<cmplx_t>(re)` (PINNED in unit StepsArray):\n"
+               "a zero-filled `arr_cmplx` of the same length with `dst[i].re = src[i]` -/\n"
+               "def arrComplex (re : Array α) : Array (Cx α) := re.map fun v => Cx.mk v (Fn.ofInt (0 : Int))\n")
+    out.append("/-- `1L << e`: `2^e` (for `0 ≤ e < 63`; otherwise the shift is undefined) -/\ndef shl1 (e : Int) : Int := (2 : Int) ^ e.toNat\n")
+    # --- conj(const arr_cmplx&), real(const arr_cmplx&) of lib/math.cpp (translated)
+    for cname, lname, sig, rt in (("conj", "conjArr", "arr_cmplx (const arr_cmplx &)", "Array (Cx α)"),
+                                  ("real", "realArr", "arr_real (const arr_cmplx &)", "Array α")):
+        fs = [d for d in clang_ast(math_tu, "dsplib::" + cname) if d.get("kind") == "FunctionDecl" and d.get("name") == cname and has_body(d) and
+              canon_type(qt(d)) == sig]
+        if len(fs) != 1:
+            raise Unsupported("%s(const arr_cmplx&) not found" % cname)
+        texts, _tr = gen_free_fn(fs[0], lname, "`%s %s(const arr_cmplx& x)` of lib/math.cpp" % (sig.split(" (")[0], cname), ret_lt=rt)
+        out += texts
+
+    def mk_calls(tr_holder):
+        calls = steps_user_calls()
+        csig = lambda n: canon_type(qt(unwrap(n["inner"][0])))
+        scalar_conj = calls["conj"]
+
+        def conj_call(a, n):
+            if csig(n) == "arr_cmplx (const arr_cmplx &)" and len(a) == 1:
+                return "(conjArr %s)" % a[0]
+            return scalar_conj(a, n)
+
+        def real_call(a, n):
+            if csig(n) == "arr_real (const arr_cmplx &)" and len(a) == 1:
+                return "(realArr %s)" % a[0]
+            raise Unsupported("call of real with signature %s" % csig(n))
+
+        def complex_call(a, n):
+            if csig(n) == "arr_cmplx (const arr_real &) noexcept" and len(a) == 1:
+                return "(arrComplex %s)" % a[0]
+            raise Unsupported("call of complex with signature %s" % csig(n))
+
+        def param_fn(cxx, table):
+            def h(a, n):
+                sg = csig(n)
+                if sg not in table or len(a) != table[sg][1]:
+                    raise Unsupported("call of %s with signature %s" % (cxx, sg))
+                nm, _, ty, doc = table[sg]
+                if nm not in [e[0] for e in tr_holder["extra"]]:
+                    tr_holder["extra"].append((nm, ty, doc))
+                return "(%s %s)" % (nm, " ".join(a))
+            return h
+        calls.update({
+            "conj": conj_call, "real": real_call, "complex": complex_call,
+            "nextpow2": param_fn("nextpow2", {"int (int)": ("nextpow2", 1, "Int → Int", "`int nextpow2(int)` of lib/math.cpp (NOT translated: a parameter)")}),
+            "fft": param_fn("fft", {
+                "arr_cmplx (const arr_cmplx &, int)": ("fftN", 2, "Array (Cx α) → Int → Array (Cx α)",
+                                                       "`arr_cmplx fft(const arr_cmplx&, int n)` (NOT translated: a parameter; its meaning is the subject of C01)"),
+                "arr_cmplx (const arr_cmplx &)": ("fft1", 1, "Array (Cx α) → Array (Cx α)",
+                                                  "`arr_cmplx fft(const arr_cmplx&)` (NOT translated: a parameter; C01)")}),
+            "ifft": param_fn("ifft", {"arr_cmplx (const arr_cmplx &)": ("ifft1", 1, "Array (Cx α) → Array (Cx α)",
+                                                                        "`arr_cmplx ifft(const arr_cmplx&)` (NOT translated: a parameter; C02)")}),
+        })
+        return calls
+
+    rec = record(clang_ast(FIR_TU, "FftFilter"), "FftFilter")
+    cdocs = [d for d in clang_ast(FIR_TU, "FftFilter::FftFilter") if d.get("kind") == "CXXConstructorDecl" and has_body(d) and not d.get("isImplicit")]
+    cc = [d for d in cdocs if canon_type(qt(d)) == "void (const arr_cmplx &)"]
+    cr = [d for d in cdocs if canon_type(qt(d)) == "void (const arr_real &)"]
+    if len(cc) != 1 or len(cr) != 1 or len(cdocs) != 2:
+        raise Unsupported("FftFilter: constructors with a body found: %s" % [canon_type(qt(d)) for d in cdocs])
+    dflt = [c for c in rec["inner"] if c.get("kind") == "CXXConstructorDecl" and not params_of(c) and not c.get("isImplicit")]
+    if len(dflt) != 1 or dflt[0].get("explicitlyDefaulted") != "default":
+        raise Unsupported("FftFilter: `FftFilter() = default;` not found")
+    holder = {"extra": []}
+
+    def setup(tr):
+        tr.allow_long_to_int = True
+        tr.extra_params = holder["extra"]
+    texts, tr = gen_ctor(rec, cc[0], FFTFILTER_TABLE, "fftFilterCtor", "FftFilter", "FftFilterState", "void (const arr_cmplx &)", pure=True,
+                         user_calls=mk_calls(holder), setup=setup,
+                         doc_extra="\n(`const int fft_len = 1L << …`: the `long` value is stored into an `int`; 32-bit overflow is NOT modelled.)")
+    if not getattr(tr, "narrowed", False):
+        pass
+    out += texts
+    ctor_extra = list(holder["extra"])
+    # the delegating constructor `FftFilter(const arr_real& h) : FftFilter(complex(h))`
+    dc = cr[0]
+    inits = [c for c in dc.get("inner", []) if c.get("kind") == "CXXCtorInitializer"]
+    bodyd = [c for c in body_of(dc).get("inner", []) if c.get("kind") != "NullStmt"]
+    if len(inits) != 1 or "anyInit" in inits[0] or "baseInit" in inits[0] or bodyd:
+        raise Unsupported("FftFilter(const arr_real&) is not a delegating constructor with an empty body")
+    ce = inits[0]["inner"][0]
+    while ce.get("kind") == "ExprWithCleanups":
+        ce = ce["inner"][0]
+    a_ = ce["inner"][0] if ce.get("kind") == "CXXConstructExpr" and len(ce.get("inner", [])) == 1 else {}
+    while a_.get("kind") in ("MaterializeTemporaryExpr", "CXXBindTemporaryExpr") or (a_.get("kind") == "ImplicitCastExpr" and a_.get("castKind") == "NoOp"):
+        a_ = a_["inner"][0]
+    hn = params_of(dc)[0]["name"]
+    ok = ce.get("kind") == "CXXConstructExpr" and canon_type(ce.get("ctorType", {}).get("qualType", "")) == "void (const arr_cmplx &)" and \
+        a_.get("kind") == "CallExpr" and Tr().callee_name(a_) == "complex" and len(a_["inner"]) == 2 and \
+        canon_type(qt(unwrap(a_["inner"][0]))) == "arr_cmplx (const arr_real &) noexcept" and \
+        unwrap(a_["inner"][1]).get("kind") == "DeclRefExpr" and unwrap(a_["inner"][1])["referencedDecl"].get("name") == hn
+    if not ok:
+        raise Unsupported("FftFilter(const arr_real& h) does not delegate to FftFilter(complex(h))")
+    eargs = "".join("(%s : %s) " % (nm, ty) for nm, ty, _ in ctor_extra)
+    out.append("/-- `FftFilter::FftFilter(const arr_real& %s)`: delegates to `FftFilter(complex(%s))` -/\n"
+               "def fftFilterCtorR %s(%s : Array α) : FftFilterState α :=\n  fftFilterCtor %s(arrComplex %s)\n" % (
+                   hn, hn, eargs, hn, "".join(nm + " " for nm, _, _ in ctor_extra), hn))
+    # --- FftFilter::process(const arr_cmplx& x): the whole function (frame level)
+    pdocs = [d for d in clang_ast(FIR_TU, "FftFilter::process") if d.get("kind") == "CXXMethodDecl" and d.get("name") == "process" and has_body(d)]
+    pc = [d for d in pdocs if canon_type(qt(d)) == "arr_cmplx (const arr_cmplx &)"]
+    pr_ = [d for d in pdocs if canon_type(qt(d)) == "arr_real (const arr_real &)"]
+    if len(pc) != 1 or len(pr_) != 1:
+        raise Unsupported("FftFilter::process overloads found: %s" % [canon_type(qt(d)) for d in pdocs])
+    order = check_members(rec, FFTFILTER_TABLE, "FftFilter")
+    members = {m: (m.lstrip("_"), lean_type_of(FFTFILTER_TABLE[m]), "%s %s" % (FFTFILTER_TABLE[m], m)) for m in order}
+    holder2 = {"extra": []}
+    tr = StepTr(members=members, single=True, user_calls=mk_calls(holder2), effect=True)
+    tr.block_arrays = True
+    tr.loop_param_order = "decl"
+    pn = params_of(pc[0])[0]["name"]
+    pv = tr.var(pn)
+    tr.arrays[pn] = (pv, "Array (Cx α)")
+    tr.bound.add(pv)
+    tr.decl_order.append(pv)
+    for nm, ty, _ in (("fft1", "Array (Cx α) → Array (Cx α)", ""), ("ifft1", "Array (Cx α) → Array (Cx α)", "")):
+        tr.bound.add(nm)
+        tr.decl_order.append(nm)
+        tr.types[nm] = ty
+    tr.types.update({pv: "Array (Cx α)", "self": "FftFilterState α"})
+    tr.name_hint = "fftFilterProcess"
+    body = tr.stmts([body_of(pc[0])], FALLOFF)
+    if FALLOFF in body:
+        raise Unsupported("FftFilter::process: control can reach the end without a return")
+    if [e[0] for e in holder2["extra"]] not in (["fft1", "ifft1"], ["ifft1", "fft1"]):
+        raise Unsupported("FftFilter::process: transform calls found: %s" % [e[0] for e in holder2["extra"]])
+    if tr.writes - {"_x", "_nx", "_olap"}:
+        raise Unsupported("FftFilter::process writes the members %s" % sorted(tr.writes))
+    out += tr.aux_defs
+    out.append("/-- `arr_cmplx FftFilter::process(const arr_cmplx& %s)`: the members afterwards and the returned array.  `fft1` / `ifft1` = `fft(const arr_cmplx&)` /\n"
+               "`ifft(const arr_cmplx&)` (NOT translated: parameters; C01 / C02).  The product `fft(_x) * _h` throws when the lengths differ: see `arrMulCCThrows`. -/\n"
+               "def fftFilterProcess (fft1 ifft1 : Array (Cx α) → Array (Cx α)) (self : FftFilterState α) (%s : Array (Cx α)) : FftFilterState α × Array (Cx α) :=\n%s\n" % (
+                   pn, pv, indent(body)))
+    # --- FftFilter::process(const arr_real& x) { return real(process(complex(x))); }
+    b = [c for c in body_of(pr_[0]).get("inner", []) if c.get("kind") != "NullStmt"]
+    xn = params_of(pr_[0])[0]["name"]
+    ok = len(b) == 1 and b[0].get("kind") == "ReturnStmt"
+    if ok:
+        calls_ = find_all(b[0], lambda x: x.get("kind") in ("CallExpr", "CXXMemberCallExpr"))
+        names_ = [(c.get("kind"), Tr().callee_name(c) if c.get("kind") == "CallExpr" else unwrap(c["inner"][0]).get("name")) for c in calls_]
+        ok = names_ == [("CallExpr", "real"), ("CXXMemberCallExpr", "process"), ("CallExpr", "complex")]
+    if ok:
+        mc = calls_[1]
+        ok = unwrap(unwrap(mc["inner"][0])["inner"][0]).get("kind") == "CXXThisExpr" and \
+            canon_type(qt(calls_[0]["inner"][0]["inner"][0] if False else unwrap(calls_[0]["inner"][0]))) == "arr_real (const arr_cmplx &)" and \
+            canon_type(qt(unwrap(calls_[2]["inner"][0]))) == "arr_cmplx (const arr_real &) noexcept" and \
+            unwrap(calls_[2]["inner"][1]).get("kind") == "DeclRefExpr" and unwrap(calls_[2]["inner"][1])["referencedDecl"].get("name") == xn and \
+            canon_type(strip_type(qt(mc))) in ARRAY_CX_T and \
+            not find_all(b[0], lambda x: x.get("kind") in ("BinaryOperator", "UnaryOperator", "CXXOperatorCallExpr"))
+    if not ok:
+        raise Unsupported("FftFilter::process(const arr_real&) is not `return real(process(complex(x)))`")
+    out.append("/-- `arr_real FftFilter::process(const arr_real& %s)`: `return real(process(complex(%s)));` -/\n"
+               "def fftFilterProcessR (fft1 ifft1 : Array (Cx α) → Array (Cx α)) (self : FftFilterState α) (%s : Array α) : FftFilterState α × Array α :=\n"
+               "  let r := fftFilterProcess fft1 ifft1 self (arrComplex %s)\n  (r.1, realArr r.2)\n" % (xn, xn, xn, xn))
+    out.append("end Gen\nend Dsp\n")
+    return "\n".join(out)
+
+
+# ------------------------------------------------------------------------------------------
 UNITS = {}
 
 
@@ -5627,6 +5937,7 @@ unit("StepsSlice", ["include/dsplib/array.h", "include/dsplib/slice.h"])(gen_ste
 unit("StepsFir", ["lib/fir.cpp", "include/dsplib/fir.h"])(gen_steps_fir)
 unit("StepsDelay", ["include/dsplib/delay.h", "lib/hilbert.cpp", "include/dsplib/hilbert.h"])(gen_steps_delay)
 unit("CtorFir", ["include/dsplib/fir.h"])(gen_ctor_fir)
+unit("StepsFftFilter", ["lib/fir.cpp", "include/dsplib/fir.h", "lib/math.cpp", "include/dsplib/array.h"])(gen_steps_fftfilter)
 unit("CtorDelay", ["include/dsplib/delay.h", "lib/hilbert.cpp", "include/dsplib/hilbert.h", "lib/math.cpp", "include/dsplib/keywords.h",
                    "include/dsplib/array.h"])(gen_ctor_delay)
 unit("StepsSnr", ["lib/snr.cpp", "include/dsplib/math.h"])(gen_steps_snr)
